@@ -10,7 +10,7 @@ ANCHORS = ["pyoma2.functions.fdd:SD_est"]
 REQUIRED_MONITORS = ["grid+shape", "welch-equivalence(per)", "hermitian-psd(per)", "bilinear+g2(per)", "bilinear+g2(cor)", "parseval(per)",
                      "gain-delay(per)", "gain-delay(cor)", "sinusoid-ratio(per)"]
 ALL_STATES = ["pov=0", "pov=0.25", "pov=0.5", "pov=0.75", "ref=all", "ref=subset", "nxseg not a power of two", "nxseg with a prime factor > 5", "negative gain", "1 channel"]
-REQUIRED_STATES = ["pov=0", "pov=0.25", "pov=0.75", "ref=subset", "negative gain", "nxseg with a prime factor > 5", "odd nxseg"]
+REQUIRED_STATES = ["pov=0", "pov=0.25", "pov=0.75", "ref=subset", "negative gain", "nxseg with a prime factor > 5", "odd nxseg", "arguments given by position"]
 RULE = ("random records (1..8 channels, 1..4 references, 2..10 segments), nxseg in {16..4096} incl. non powers of two, integer nxseg*pov, fs "
         "log-uniform; 'per' compared entry by entry with an independently written Welch estimate (lines >= 2); bilinearity/g^2, Hermitian PSD, "
         "Parseval; multi-channel gain-and-delay records (each entry (i,j) must show gain g_j/g_i and phase -2 pi f (d_j-d_i)/fs); sinusoids at "
@@ -69,7 +69,11 @@ def run_welch(ctx, rng):
     if allref:
         refidx = list(range(nch))
     for method in ("per", "cor"):
-        f, S = fdd.SD_est(Y.copy(), Yr.copy(), 1 / fs, nx, method=method, pov=pov)
+        if rng.random() < 0.5:
+            f, S = fdd.SD_est(Y.copy(), Yr.copy(), 1 / fs, nx, method, pov)  # all arguments by position, in the documented order
+            ctx.state("arguments given by position")
+        else:
+            f, S = fdd.SD_est(Y.copy(), Yr.copy(), 1 / fs, nx, method=method, pov=pov)
         ctx.ev("grid+shape")
         nf = nx // 2 + 1
         ok = ctx.check(np.shape(S) == (nch, len(refidx), nf) and np.shape(f) == (nf,), f"{method}:shape",
